@@ -416,6 +416,21 @@ func (f *fileCtx) process() {
 				f.rewriteMapRange(x, u)
 			}
 		case *ast.CallExpr:
+			// make([]byte, n) with a run-time length: goes through the simulated allocator so that
+			// a corrupted length field cannot make the harness allocate gigabytes (DESIGN 3.1)
+			if id, ok := x.Fun.(*ast.Ident); ok && id.Name == "make" && len(x.Args) == 2 {
+				if _, isB := info.Uses[id].(*types.Builtin); isB {
+					if sl, ok := info.Types[x.Args[0]].Type.Underlying().(*types.Slice); ok {
+						if b, ok := sl.Elem().Underlying().(*types.Basic); ok && b.Kind() == types.Uint8 && info.Types[x.Args[1]].Value == nil &&
+							types.Identical(info.Types[x.Args[0]].Type, types.NewSlice(types.Typ[types.Uint8])) {
+							f.repl(x.Pos(), x.Args[1].Pos(), "simrt.MakeBytes(int(")
+							f.ins(x.Args[1].End(), ")")
+							stats["make_bytes"]++
+						}
+					}
+				}
+				break
+			}
 			name := funcFullName(info, x.Fun)
 			if name == "" {
 				break
